@@ -710,6 +710,26 @@ int verif_case(const uint8_t *data, size_t size, Case &c) {
     Forms f(k, true);
     if (f.has2) c.label("haystack-object-with-stale-in-object-bytes");
     std::string why = check_case(k, f);
+    if (why.empty() && !k.hay.empty() && k.hay.size() <= 64) {
+        // the haystack's OWN storage as the needle (h.c_str() + j): a C-string needle still ends at its first NUL, wherever it points
+        const ST::string H = ST::string::from_validated(k.hay.data(), k.hay.size());
+        for (size_t j = 0; j < 2 && j < k.hay.size() && why.empty(); j++) {
+            const std::string tail = k.hay.substr(j), nz = tail.substr(0, strlen(tail.c_str()));
+            for (int ci = 0; ci < 2 && why.empty(); ci++) {
+                const ST::case_sensitivity_t cs = ci ? ST::case_insensitive : ST::case_sensitive;
+                const ll w1 = ref::find(k.hay, 0, nz, ci != 0), w2 = ref::find_last(k.hay, (size_t)-1, nz, ci != 0);
+                const ll g1 = H.find(H.c_str() + j, cs), g2 = H.find_last(H.c_str() + j, cs);
+                const bool g3 = H.contains(H.c_str() + j, cs), g4 = H.starts_with(H.c_str() + j, cs), g5 = H.ends_with(H.c_str() + j, cs);
+                char msg[300]; msg[0] = 0;
+                if (g1 != w1) snprintf(msg, sizeof msg, "h.find(h.c_str()+%zu) [%s] returned %lld, reference %lld", j, ci ? "case_insensitive" : "case_sensitive", (long long)g1, (long long)w1);
+                else if (g2 != w2) snprintf(msg, sizeof msg, "h.find_last(h.c_str()+%zu) [%s] returned %lld, reference %lld", j, ci ? "case_insensitive" : "case_sensitive", (long long)g2, (long long)w2);
+                else if (g3 != (w1 >= 0)) snprintf(msg, sizeof msg, "h.contains(h.c_str()+%zu) [%s] returned %d, reference %d", j, ci ? "case_insensitive" : "case_sensitive", (int)g3, (int)(w1 >= 0));
+                else if (g4 != ref::starts_with(k.hay, nz, ci != 0)) snprintf(msg, sizeof msg, "h.starts_with(h.c_str()+%zu) [%s] returned %d", j, ci ? "case_insensitive" : "case_sensitive", (int)g4);
+                else if (g5 != ref::ends_with(k.hay, nz, ci != 0)) snprintf(msg, sizeof msg, "h.ends_with(h.c_str()+%zu) [%s] returned %d", j, ci ? "case_insensitive" : "case_sensitive", (int)g5);
+                if (msg[0]) why = std::string(msg) + " (the haystack's own storage as the needle)";
+            }
+        }
+    }
     if (!why.empty()) return c.fail(why);
     return verif::CASE_OK;
 }
